@@ -14,7 +14,7 @@ Scenario skeleton (the sub-language Driver/Receiver.lean accepts):
     write wa <i> <v> (n times) / write wb <i> <v> (m times)        real traffic: proxies leave their initial state
     hold from=P2                                    everything the victim sends from now on is kept back (and shown)
   then repeatedly
-    inject P1 P2 user|meta <hex>                    -> `ok #*` | PANIC | HANG
+    x-w2d-inject P1 P2 user|meta <hex>              -> `ok #*` | PANIC | HANG | CRASH | ALLOC <bytes>      (= `inject` + allocation observation)
     inflight                                        -> the victim's direct replies, decoded
     drop-held
   and finally
@@ -95,11 +95,20 @@ def m_info_src(prefix, version=(2, 4), vendor=(1, 20)):
     return sub(INFO_SRC, 0, bytes(4) + bytes(version) + bytes(vendor) + prefix)
 
 
-def m_info_reply(n_locators=0, claimed=None):
-    body = struct.pack("<I", n_locators if claimed is None else claimed)
-    for k in range(n_locators):
+def locators(n_present, claimed=None):
+    """a LocatorList: the numLocators field says `claimed` (default: the truth), `n_present` locators follow"""
+    body = struct.pack("<I", (n_present if claimed is None else claimed) & U32_MAX)
+    for k in range(n_present):
         body += struct.pack("<iI", 1, 7400 + k) + bytes(12) + bytes([127, 0, 0, 1])
-    return sub(INFO_REPLY, 0, body)
+    return body
+
+
+def m_info_reply(n_locators=0, claimed=None, multicast=None, trailing=0):
+    """INFO_REPLY; `multicast` = (n_present, claimed) adds the second list and sets the MulticastFlag; `trailing` extra octets"""
+    body = locators(n_locators, claimed)
+    if multicast is not None:
+        body += locators(*multicast)
+    return sub(INFO_REPLY, 2 if multicast is not None else 0, body + bytes(trailing))
 
 
 def m_pad():
@@ -178,7 +187,13 @@ EPILOGUE = ["clear-faults", "write wp 9 9", "take rp", "wait-ack wp 1000000000",
 
 
 def inject(hexdg, port="user"):
-    return [f"inject P1 P2 {port} {hexdg}", "inflight", "drop-held"]
+    return [f"x-w2d-inject P1 P2 {port} {hexdg}", "inflight", "drop-held"]
+
+
+# allocation observation of the dsim extension `x-w2d-inject`: peak heap growth of the whole simulated world while one datagram is
+# delivered and processed must stay below ALLOC_C * datagram length + ALLOC_D; a single request above ALLOC_LIMIT aborts the child
+ALLOC_C, ALLOC_D, ALLOC_LIMIT = 64, 1 << 18, 2 << 30
+ALLOC_ENV = {"DSIM_ALLOC_CHECK": f"{ALLOC_C}:{ALLOC_D}:{ALLOC_LIMIT}"}
 
 
 # ----------------------------------------------------------------------------- generator (structure-aware, boundary-biased)
@@ -277,7 +292,14 @@ def gen_sub(r, st, builtin=False, big_ranges=False):
     if k == "infosrc":
         return m_info_src(r.choice([P1, P1, P2, UNKNOWN_PREFIX, bytes(12)]))
     if k == "inforeply":
-        return m_info_reply(r.choice([0, 0, 1, 2]))
+        # the element counts are read from the wire: vary them independently of the locators actually present
+        n = r.choice([0, 0, 1, 2])
+        claimed = None if r.chance(1, 3) else r.choice([0, 1, 2, 3, 255, 2**15, 2**16, 2**20, 2**24, 2**31 - 1, 2**31, U32_MAX, U32_MAX - 1])
+        mc = None
+        if r.chance(1, 3):
+            m = r.choice([0, 1, 2])
+            mc = (m, None if r.chance(1, 2) else r.choice([0, 1, 3, 2**16, 2**20, 2**31, U32_MAX]))
+        return m_info_reply(n, claimed, mc, trailing=r.choice([0, 0, 4]))
     if k == "pad":
         return m_pad()
     return sub(r.choice([0x02, 0x20, 0x80, 0xff]), 0, bytes(r.choice([0, 4, 8])))
@@ -298,7 +320,7 @@ def gen_case(r, big_ranges=False):
             subs.insert(r.below(len(subs) + 1), m_info_src(P1))
         dg = datagram(prefix, subs)
         if mode_b:
-            lines.append(f"inject P1 P2 {r.choice(['meta', 'user'])} {dg}")
+            lines.append(f"x-w2d-inject P1 P2 {r.choice(['meta', 'user'])} {dg}")
         else:
             lines += inject(dg)
     return Case(lines + EPILOGUE, {"mode": "B" if mode_b else "A"})
